@@ -334,6 +334,57 @@ class _ScalarTable(bq_tables.Table):
         return iter(self.rows)
 
 
+class _SharedClassCol(qc_EvalColumn):
+    # like beanquery/tests/tables.py: the accessor lives in the instance, NOT in __slots__ (so two such columns of one
+    # datatype compare equal as nodes)
+    def __init__(self, func, datatype):
+        super().__init__(datatype)
+        self.func = func
+
+    def __call__(self, row):
+        return self.func(row)
+
+
+class _SharedClassTable(bq_tables.Table):
+    def __init__(self, rows):
+        self.name = 'w'
+        self.columns = {'k': _SharedClassCol(lambda r: r[0], str), 'x': _SharedClassCol(lambda r: r[1], int), 'y': _SharedClassCol(lambda r: r[2], int)}
+        self.rows = list(rows)
+
+    def __iter__(self):
+        return iter(self.rows)
+
+
+def check_shared_class_columns(acc):
+    rows = [('a', 1, 10), ('b', 2, 20), ('a', 3, 30), ('b', None, 40), ('c', 5, None)]
+    conn = connect(w=_SharedClassTable(rows), postings=_SharedClassTable(rows))
+    x, y, k = col('x'), col('y'), col('k')
+
+    def fold(fn, i, key=None):
+        vals = [r[i] for r in rows if r[i] is not None and (key is None or r[0] == key)]
+        return fn(vals) if vals else (0 if fn is sum else None)
+    keys = list(dict.fromkeys(r[0] for r in rows))
+    stmts = [
+        ('sum-sum', select([(F('sum', x), 'sx'), (F('sum', y), 'sy'), (F('min', x), 'mx'), (F('min', y), 'my')], from_='w'),
+         [(fold(sum, 1), fold(sum, 2), fold(min, 1), fold(min, 2))]),
+        ('grouped', select([(k, None), (F('sum', x), 'sx'), (F('sum', y), 'sy'), (F('max', y), 'my'), (F('max', x), 'mx')], from_='w', group_by=A.GroupBy([k], None)),
+         [(kk, fold(sum, 1, kk), fold(sum, 2, kk), fold(max, 2, kk), fold(max, 1, kk)) for kk in keys]),
+        ('arith', select([(A.Sub(F('sum', y), F('sum', x)), 'd')], from_='w'), [(fold(sum, 2) - fold(sum, 1),)]),
+        ('having', select([(k, None), (F('sum', x), 'sx')], from_='w', group_by=A.GroupBy([k], A.Greater(F('sum', y), C(35)))),
+         [(kk, fold(sum, 1, kk)) for kk in keys if fold(sum, 2, kk) > 35]),
+    ]
+    for tag, stmt, exp in stmts:
+        acc.count('executions')
+        acc.count('shared_class_column_statements')
+        try:
+            got = conn.execute(stmt).fetchall()
+        except Exception as e:
+            acc.violation(f'crash:{crash_fingerprint(e)}', f'{show(stmt)} raised {type(e).__name__}: {e}', {'kind': 'shared', 'tag': tag})
+            continue
+        if [tuple(map(typed, r)) for r in got] != [tuple(map(typed, r)) for r in exp]:
+            acc.violation(f'agg:same-aggregate-over-two-columns|{tag}', f'{show(stmt)} on {rows!r}: got {got!r}, expected {exp!r}', {'kind': 'shared', 'tag': tag})
+
+
 def check_falsy_rows(acc, only=None):
     x = col('x')
     cnt, sm, mx = F('count', A.Asterisk()), F('sum', x), F('max', x)
@@ -412,7 +463,40 @@ def sweep2(shard, nshards):
             if not mine(idx, shard, nshards):
                 continue
             sweep2_pair(conn, tname, c1, c2, acc)
+        for c1 in cols:
+            idx += 1
+            if mine(idx, shard, nshards):
+                sweep2_single(conn, tname, c1, acc)
     return acc
+
+
+def sweep2_single(conn, tname, c1, acc):
+    """ONE visible grouping key of every hashable column type (named tuples such as Amount / Position included): the key
+    cell holds the column's value, one row per distinct value in order of first appearance."""
+    case = {'kind': 'single', 'table': tname, 'c1': c1}
+    frm = A.Table(tname)
+    try:
+        base = [r[0] for r in conn.execute(select([(col(c1), 'a')], from_=frm)).fetchall()]
+        groups = {}
+        for a in base:
+            groups.setdefault(hkey(a), [a, 0])[1] += 1
+    except TypeError:
+        return
+    except Exception as e:
+        acc.violation(f'crash:{crash_fingerprint(e)}', f'SELECT {c1} FROM #{tname} raised {e!r}', case)
+        return
+    exp = [(g[0], g[1]) for g in groups.values()]
+    for tag, stmt in (('explicit', select([(col(c1), 'a'), (F('count', A.Asterisk()), 'n')], from_=frm, group_by=A.GroupBy([col('a')], None))),
+                      ('implicit', select([(col(c1), 'a'), (F('count', A.Asterisk()), 'n')], from_=frm))):
+        acc.count('executions')
+        acc.count('single_key_statements')
+        try:
+            got = conn.execute(stmt).fetchall()
+        except Exception as e:
+            acc.violation(f'crash:{crash_fingerprint(e)}', f'{show(stmt)} raised {e!r}', case)
+            continue
+        if [(type(a).__name__, hkey(a), n) for a, n in got] != [(type(a).__name__, hkey(a), n) for a, n in exp]:
+            acc.violation(f'single-key:{tag}', f'{show(stmt)}: got {got[:4]!r}, the partition of SELECT {c1} gives {exp[:4]!r}', case)
 
 
 def sweep2_pair(conn, tname, c1, c2, acc):
@@ -465,6 +549,12 @@ def replay(c):
     if c['kind'] == 'pair':
         sweep2_pair(ledger_conn(), c['table'], c['c1'], c['c2'], acc)
         return acc.violations
+    if c['kind'] == 'shared':
+        check_shared_class_columns(acc)
+        return [v for v in acc.violations if v.case.get('tag') == c['tag']]
+    if c['kind'] == 'single':
+        sweep2_single(ledger_conn(), c['table'], c['c1'], acc)
+        return acc.violations
     if c['kind'] == 'falsy':
         check_falsy_rows(acc, only=c['rows'])
         return acc.violations
@@ -491,6 +581,7 @@ def run(ctx):
     acc = run_shards(sweep1, ctx.jobs, plan, ctx.seed)
     acc2 = run_shards(sweep2, ctx.jobs)
     check_falsy_rows(acc2)
+    check_shared_class_columns(acc2)
     n = acc.n
     viol = acc.violations + acc2.violations
     cov = {
